@@ -45,4 +45,14 @@ CHECKS["C07"] = {
     "parts": [{"bin": "C07_condvar"}],
 }
 
+CHECKS["C02"] = {
+    "registered": True,
+    "engine": "pmc-rt",
+    "technique": "stateless preemption-bounded exhaustive schedule enumeration of suspend/wake-up programs on a live 2-worker runtime; quiescence-with-suspended-task (stuck) detector as oracle",
+    "level_text": "Every schedule within the deviation bound of suspender/waker programs (waker = task on the other worker or external non-pika thread, optional busy task, one or two waiters, cv and mutex facilities) is executed on the real runtime; a quiescent runtime with an issued wake-up and a task that did not run again is reported, with the pool's thread counts.",
+    "level_note": "Sequentially consistent interleavings only; 2 workers; choice points at the waiter state words, the internal lock/condition variable and at the atomics of set_thread_state, set_active_state, do_yield/do_resume, create_work and switch_status (F-site); fairness is the spin detector of the scheduler. The Promela layer sketched in DESIGN.md was not built.",
+    "rule": "pmc-rt: suspender / waker / helper-task programs x all schedules within the deviation bound",
+    "parts": [{"bin": "C02_wakeup"}],
+}
+
 PENDING = {}
